@@ -189,6 +189,63 @@ def run(ctx):
                 res.violate(None, "default secret does not verify", {"alg": alg})
             if isinstance(default, str) and (len(tp.log) != 1 or d.salt != tp.log[0]):
                 res.violate(None, "plaintext default not hashed with a fresh salt", {"alg": alg})
+        # a plaintext default is hashed anew, with a salt of its own, for every configuration that is left at the default: a second root
+        # configuration, sub-configurations, items of a configuration list created from maps
+        from cincoconfig import ListField
+        item = Schema()
+        item.name = ChallengeField(alg, default="item-default")
+        s3 = Schema()
+        s3.pw = ChallengeField(alg, default="hunter2")
+        s3.sub.pw = ChallengeField(alg, default="hunter2")
+        s3.items = ListField(item, default=lambda: [])
+        holders = []
+        for _ in range(3):
+            c3 = s3()
+            c3.items = [{}, {}]
+            holders += [("root", c3.pw), ("sub", c3.sub.pw)] + [("item", it.name) for it in c3.items]
+        res.case(("default-fresh", alg), kind="default:fresh-per-configuration")
+        salts_seen = [d.salt for _, d in holders if isinstance(d, DigestValue)]
+        if len(salts_seen) != len(holders) or len(set(salts_seen)) != len(salts_seen) or len({id(d) for _, d in holders}) != len(holders):
+            res.violate("C09:default-salt-shared", "configurations left at a plaintext default share one salt (the default was hashed once, not per configuration)",
+                        {"alg": alg, "holders": [w for w, _ in holders], "distinct_salts": len(set(salts_seen))})
+        for w, d in holders:
+            if isinstance(d, DigestValue) and (len(d.salt) != size or d.digest != hfun(d.salt + (b"item-default" if w == "item" else b"hunter2")).digest()):
+                res.violate(None, "default not hashed as hash(salt + default) with a salt of the digest's length", {"alg": alg, "where": w})
+        # a digest value taken over as it is (assigned, or declared as default) keeps its salt and digest through save and load, whatever the salt's length
+        for sl in (1, size - 1, size, size + 1, size + 5, 3 * size):
+            salt = bytes(rng.getrandbits(8) for _ in range(sl))
+            given = DigestValue(salt, hfun(salt + b"taken-over").digest(), hfun)
+            for route in ("assigned", "default"):
+                s4 = Schema()
+                s4.pw = ChallengeField(alg, default=given) if route == "default" else ChallengeField(alg)
+                c4 = s4()
+                case = {"stream": "taken-over-digest", "alg": alg, "salt_len": sl, "route": route}
+                res.case(("taken-over", alg, sl, route), kind="taken-over-digest")
+                try:
+                    if route == "assigned":
+                        c4.pw = given
+                    held = c4.pw
+                    if held.salt != salt or held.digest != given.digest:
+                        res.violate("C09:taken-over-digest-changed", "a digest value taken over as it is does not keep its salt and digest in memory", case)
+                        continue
+                except Exception as e:  # noqa
+                    res.hist["taken-over-rejected:%s" % type(e).__name__] += 1
+                    continue
+                for fmt in ("json", "yaml", "bson", "xml", "pickle"):
+                    f4 = s4()
+                    try:
+                        f4.loads(c4.dumps(format=fmt), format=fmt)
+                        back = f4.pw
+                        same = back.salt == salt and back.digest == given.digest
+                        if same:
+                            back.challenge("taken-over")
+                    except Exception as e:  # noqa
+                        same = False
+                        back = None
+                    if not same:
+                        res.violate("C09:taken-over-digest-changed", "salt/digest of a digest value taken over as it is changed by save+load (or the secret no longer verifies)",
+                                    dict(case, fmt=fmt, back_salt_len=len(back.salt) if back is not None else None))
+                        break
         # malformed stored values
         good = {"salt": base64.b64encode(b"s" * size).decode(), "digest": base64.b64encode(b"d" * size).decode()}
         for st in [5, True, [1], {}, {"salt": good["salt"]}, {"digest": good["digest"]}, dict(good, salt="A"), dict(good, digest="QQ="),
